@@ -26,6 +26,7 @@ def plan(tier, seed):
 
 
 _OBJ_CACHE = {}
+_W_SNAP = {}
 
 
 def container(vec, kind):
@@ -44,10 +45,17 @@ def judge(case, ctx):
     ctx.evaluated()
     name, kp, wts, vec, kind, flag = case["objective"], case.get("k"), case.get("weights"), case["vec"], case["kind"], case["flag"]
     # the same objective INSTANCE serves all calls with the same parameters in this shard (an instance that remembers something between calls would show)
-    okey = (name, kp, tuple(wts or ()))
+    wkind = case.get("weights_kind", "list")
+    okey = (name, kp, tuple(wts or ()), wkind)
     objective = _OBJ_CACHE.get(okey)
     if objective is None:
-        objective = _OBJ_CACHE[okey] = A.objective(name, kp, wts)
+        wobj = wts
+        if wts is not None and wkind != "list":
+            # the weight vector may be any sequence: tuple, int64 array, float64 array (the objective must not write into it)
+            wobj = tuple(wts) if wkind == "tuple" else np.array(wts, dtype=float if wkind == "ndarray_f" else None)
+        objective = _OBJ_CACHE[okey] = A.objective(name, kp, wobj)
+        if wts is not None:
+            _W_SNAP[okey] = (wobj, list(map(float, wts)))
     want = O.objval(name, vec, kp, wts)
     sums = container(vec, kind)
     try:
@@ -71,6 +79,14 @@ def judge(case, ctx):
     if not ok:
         ctx.violation("value_differs_from_documented_quantity", name, case, {"got": float(got), "want": float(want)})
         return
+    if name == "wmaxmin":
+        # evaluated again by the same instance (the second evaluation must see the same weights), and the caller's weight vector must be untouched
+        got2 = objective.value_to_minimize(container(vec, kind))
+        wobj, wsnap = _W_SNAP[okey]
+        if abs(float(got2) - float(want)) > 1e-9 * max(1.0, abs(float(want))) or [float(x) for x in wobj] != wsnap:
+            ctx.violation("weighted_objective_changes_between_evaluations", name, case, {"first": float(got), "second": float(got2), "want": float(want),
+                                                                                        "weights_now": [float(x) for x in wobj], "weights_given": wsnap})
+            return
     unsorted_distinct = len(set(vec)) >= 2 and list(vec) != sorted(vec)
     ctx.held(key=(name, kp, tuple(wts or ()), kind, tuple(vec), flag), nontrivial=unsorted_distinct or (flag and len(set(vec)) >= 2),
              cls=f"{name}/{kind}/{'sortedflag' if flag else 'noflag'}", sample={"case": case, "value": float(got)})
@@ -118,7 +134,10 @@ def cases_for(vec, rng, kinds=("list", "tuple", "ndarray", "ndarray_f")):
             yield {"objective": name, "k": kp, "vec": srt, "kind": kind, "flag": True, "flag_form": rng.choice(["kw", "pos"])}      # fast path on truly sorted input
             yield {"objective": name, "k": kp, "vec": srt[::-1], "kind": rng.choice(kinds), "flag": False, "flag_form": rng.choice(["kw", "pos"])}
     wts = [rng.choice([1, 2, 3, 5, 10, 0.5]) for _ in vec]
-    yield {"objective": "wmaxmin", "weights": wts, "vec": list(vec), "kind": rng.choice(kinds), "flag": False}
+    wts = [w if isinstance(w, float) and not w.is_integer() else int(w) for w in wts]
+    if rng.random() < 0.5:
+        wts = [int(w) if float(w).is_integer() else 2 for w in wts]       # integer-valued weights for the array kinds
+    yield {"objective": "wmaxmin", "weights": wts, "vec": list(vec), "kind": rng.choice(kinds), "flag": False, "weights_kind": rng.choice(["list", "tuple", "ndarray_f", "ndarray_i"])}
     yield {"objective": "wmaxmin", "weights": wts, "vec": srt, "kind": "list", "flag": True}
 
 
